@@ -14,6 +14,7 @@ import (
 	"math/rand"
 	"net"
 	"regexp"
+	"runtime"
 	"strconv"
 	"strings"
 	"sync"
@@ -22,6 +23,7 @@ import (
 
 func init() {
 	commands["c12-conc"] = c12Conc
+	commands["c12-mem"] = c12Mem
 	commands["c12"] = c12Run
 	commands["c12-hostile"] = c12Hostile
 }
@@ -765,4 +767,133 @@ func c12Conc(e *env) {
 		}()
 	}
 	wg.Wait()
+}
+
+// heapNow: live heap after a collection, in bytes.
+func heapNow() uint64 {
+	runtime.GC()
+	var ms runtime.MemStats
+	runtime.ReadMemStats(&ms)
+	return ms.HeapAlloc
+}
+
+// c12Mem: input whose size the peer chooses must not be kept in memory in proportion to its size ("no sequence of bytes from
+// a client or an upstream can crash the process": a few such connections would exhaust it). The proxy runs in this process,
+// so its heap is this process's heap; the senders stream from one small buffer.
+//   head:   a request head whose field line never ends (64 MiB and counting)
+//   reject: an upstream proxy that refuses the transport's CONNECT with a body of 64 MiB
+func c12Mem(e *env) {
+	const total, step, bound = 64 << 20, 64 << 10, 24 << 20
+	chunk := bytes.Repeat([]byte("a"), step)
+	run := func(name string, drive func(peak func())) {
+		res := map[string]any{"ok": true, "input": name, "sent_mib": total >> 20}
+		before := heapNow()
+		var top uint64
+		peak := func() {
+			if h := heapNow(); h > top {
+				top = h
+			}
+		}
+		// the live heap is also watched all the while
+		stop := make(chan struct{})
+		var swg sync.WaitGroup
+		var pmu sync.Mutex
+		swg.Add(1)
+		go func() {
+			defer swg.Done()
+			for {
+				select {
+				case <-stop:
+					return
+				case <-time.After(10 * time.Millisecond):
+					h := heapNow()
+					pmu.Lock()
+					if h > top {
+						top = h
+					}
+					pmu.Unlock()
+				}
+			}
+		}()
+		drive(func() {})
+		close(stop)
+		swg.Wait()
+		peak()
+		grow := int64(top) - int64(before)
+		res["heap_growth_mib"] = grow >> 20
+		if grow > bound {
+			res["ok"], res["why"] = false, fmt.Sprintf("%s: the proxy's heap grew by %d MiB while a peer sent %d MiB it chose to send: memory in proportion to the input", name, grow>>20, total>>20)
+		}
+		e.emit(res)
+	}
+	// ---- an endless request head
+	f, err := startFwd(fwdCfg{Name: "fwd", Localhost: "allow"})
+	if err != nil {
+		fatal("start: %v", err)
+	}
+	run("request head line without end", func(peak func()) {
+		c, err := net.DialTimeout("tcp", f.addr, 5*time.Second)
+		if err != nil {
+			fatal("dial: %v", err)
+		}
+		defer c.Close()
+		c.SetWriteDeadline(time.Now().Add(60 * time.Second))
+		if _, err := c.Write([]byte("GET http://origin.test/ HTTP/1.1\r\nHost: origin.test\r\nX-Big: ")); err != nil {
+			return
+		}
+		for sent := 0; sent < total; sent += step {
+			if _, err := c.Write(chunk); err != nil {
+				return // the proxy has had enough: fine
+			}
+			if sent%(8<<20) == 0 {
+				peak()
+			}
+		}
+		time.Sleep(50 * time.Millisecond)
+	})
+	f.stop()
+	// ---- an upstream proxy that refuses a CONNECT with an enormous body
+	up := startPeer("UP", &hitLog{}, nil, func(p *peer, conn net.Conn, idx int) {
+		br := bufio.NewReader(conn)
+		if _, err := readWireRequest(br); err != nil {
+			return
+		}
+		fmt.Fprintf(conn, "HTTP/1.1 403 Forbidden\r\nContent-Length: %d\r\n\r\n", total)
+		conn.SetWriteDeadline(time.Now().Add(60 * time.Second))
+		for sent := 0; sent < total; sent += step {
+			if _, err := conn.Write(chunk); err != nil {
+				return
+			}
+		}
+	})
+	defer up.close()
+	f2, err := startFwd(fwdCfg{Name: "fwd", Localhost: "allow", Upstream: "http://upstream.test:3128"})
+	if err != nil {
+		fatal("start: %v", err)
+	}
+	defer f2.stop()
+	f2.mapName("upstream.test:3128", up.addr())
+	run("body of an upstream proxy's CONNECT rejection", func(peak func()) {
+		cl, err := dialRaw(f2.addr)
+		if err != nil {
+			fatal("dial: %v", err)
+		}
+		defer cl.close()
+		// an https URL in absolute form: the transport issues the CONNECT itself
+		cl.send([]byte("GET https://origin.test/x HTTP/1.1\r\nHost: origin.test\r\n\r\n"))
+		done := make(chan struct{})
+		go func() {
+			defer close(done)
+			cl.conn.SetReadDeadline(time.Now().Add(60 * time.Second))
+			io.Copy(io.Discard, cl.br)
+		}()
+		for i := 0; i < 40; i++ {
+			select {
+			case <-done:
+				return
+			case <-time.After(100 * time.Millisecond):
+				peak()
+			}
+		}
+	})
 }
